@@ -39,7 +39,7 @@ ASSUMPTIONS = [
     'silently by design and are not compared)',
 ]
 BOUNDS = {'quick': {'processes': 2, 'max_nodes': 6},
-          'thorough': {'processes': 3, 'max_nodes': 6}}
+          'thorough': {'processes': 4, 'max_nodes': 6}}
 
 
 def put(tree, path, value):
